@@ -274,6 +274,10 @@ def gen_verdict_decls(rng, tier):
         for raw in (False, True):
             b.add("String", [block("validate", [[tid("regex"), EQ, tstr(val, raw)]]), derive_block(["Debug"])], "ok" if ok else "validate:invalid_regex")
     b.add("String", [block("validate", [[tid("regex"), EQ, tstr(REGEX_LITS[2])]]), D(["Debug"])], "ok")
+    # every Unicode class the regex crate knows by default is part of the grammar of a regex literal: scripts,
+    # boolean properties, general categories, Perl classes (the macro compiles the literal at expansion time)
+    for val in ("^\\p{Greek}+$", "\\p{Alphabetic}", "^\\p{Lu}\\p{Ll}+$", "\\p{Cyrillic}|\\p{Han}", "(?i)^\\w+\\b$"):
+        b.add("String", [block("validate", [[tid("regex"), EQ, tstr(val.replace("\\\\", "\\"))]]), derive_block(["Debug"])], "ok")
     b.add("String", [block("validate", [[tid("regex"), EQ, tpath("RE1")]]), D(["Debug"])], "ok")
     b.add("i32", [block("validate", [[tid("regex"), EQ, tstr("@")]])], "parse:unknown_validator")
 
